@@ -327,6 +327,53 @@ def c01_cases(tier):
     return cases
 
 
+_MATRIX = {}
+
+
+def matrix_cases(tier):
+    """every rule-trigger template followed by each operator that the optimizer pushes towards the source
+    (column selection, single column, filter, head, partition selection, index) - the systematic template x pushdown matrix"""
+    if tier in _MATRIX:
+        return _MATRIX[tier]
+    import pandas as pd
+    from . import interp, ops
+
+    cases = []
+    lays = LAYOUTS_A if tier == "thorough" else LAYOUTS_A[1:6]
+    for ti, t in enumerate(_templates()):
+        base = _expand(t, LAYOUTS_A[1], INDEXES_A[0], {"kind": "from_pandas", "npartitions": 2, "sort": True}, "tasks")
+        try:
+            pv = interp.run_pandas(base)
+            fl = interp.static_flags(base, pv)
+        except Exception:
+            continue
+        out = t["out"]
+        x, f = pv[out], fl[out]
+        if not f.defined:
+            continue  # several results satisfy the template (partial head of an algorithm-partitioned frame): nothing may follow
+        pushes = []
+        if isinstance(x, pd.DataFrame) and len(x.columns) >= 2 and all(isinstance(c, str) for c in x.columns):
+            cs = list(x.columns)
+            pushes.append(S("m1", "cols", [out], cols=[cs[-1], cs[0]]))
+            pushes.append(S("m1", "col", [out], col=cs[len(cs) // 2]))
+            num = [c for c in cs if ops.col_kind(x[c].dtype) in ("int", "float")]
+            if num:
+                pushes.append(S("m1", "filter_pred", [out], pred=P("ge", num[-1], 1)))
+        if isinstance(x, (pd.DataFrame, pd.Series)):
+            if f.ordered and f.defined:
+                pushes.append(S("m1", "head", [out], n=3, npartitions=-1, how="head"))
+            if f.layout:
+                pushes.append(S("m1", "partitions", [out], sel=[2, 0]))
+            if f.indexed:
+                pushes.append(S("m1", "index_of", [out]))
+        for pi, push in enumerate(pushes):
+            tt = {"name": t["name"] + "+" + push["op"], "steps": list(t["steps"]) + [push], "out": "m1", "tags": t["tags"]}
+            for li, la in enumerate(lays if tier == "thorough" else [lays[(ti + pi) % len(lays)]]):
+                cases.append(_expand(tt, la, INDEXES_A[0], {"kind": "from_map", "cuts": [2, 0, 3]}, ["tasks", "disk"][(ti + pi + li) % 2]))
+    _MATRIX[tier] = cases
+    return cases
+
+
 # ----------------------------------------------------------------- sibling variants (C08/C09)
 
 SIBLINGS = [
